@@ -94,7 +94,12 @@ class FitInfoFile(object):
                     yield info
         else:
             for info in self._fits:
-                yield info
+                # Consumers filter the results in place with keep(), so hand
+                # out a shallow copy and leave the caller's object untouched
+                info_copy = FitInfo()
+                info_copy.__setstate__(info.__getstate__())
+                info_copy.meta = info.meta
+                yield info_copy
 
 
 class FitInfoMeta(object):
